@@ -471,7 +471,7 @@ def replay_one(env, beh, variant, kind, container):
             # a container whose member bytes changed must not keep its hash
             fails.append({"clause": "ContainerHashChangesWithBytes", "container": container,
                           "routes": routes_used, "program": h})
-        elif (not changed) and got != init_hash:
+        elif (not changed) and got != init_hash and not predicted_stale:
             fails.append({"clause": "ContainerHashStableWithoutWrite", "container": container,
                           "routes": routes_used, "program": h})
         if got != want:
